@@ -341,6 +341,9 @@ package core
 //@   hint after (*file).PopFront#2 txi:       txInv(tx)
 //@   hint after (*file).PopFront#2 all:       txInv(&u.allStore)
 //@   hint after (*file).PopFront#2 regs:      forall id string :: has(u.txStore.store, id) ==> regOk(u, id)
+// every version popped from the transaction is returned for deletion when the commit fails (the newest ones
+// through `files`, the superseded ones through `deleteFiles`): counted, one entry per popped node
+//@   exitassert allreturned: tx != nil && err != nil ==> len(deleteFiles) == len(freeNodes)
 //@ loop (*UseCase).UpdateTx#1
 //@   invariant pool:      tx != nil && !tx.tinPool
 //@   invariant inv:       ucInv(u) && tx != nil && toplevel(tx) && txInv(tx) && !tx.WithoutSearch && tx.store == $range
@@ -355,6 +358,7 @@ package core
 //@   invariant newsame:   (forall k string :: latestSeq(newTx, k) == oldLatest(u, newTxId, k)) && (filter.BeforeSeq != nil ==> *filter.BeforeSeq == old(*filter.BeforeSeq))
 //@   invariant keys:      forall k string :: has(tx.store, k) == old(has(u.txStore.store[oldTxId].store, k))
 //@   invariant nolog:     len(world.logSeq) == 0 && len(world.logCid) == 0
+//@   invariant count:     len(files) + len(deleteFiles) == len(freeNodes)
 //@ loop (*UseCase).UpdateTx#2
 //@   invariant pool:      tx != nil && !tx.tinPool
 //@   invariant inv:       ucInv(u) && tx != nil && toplevel(tx) && txInv(tx) && !tx.WithoutSearch && tx.store == $range
@@ -372,9 +376,11 @@ package core
 //@   invariant newsame:   (forall k string :: latestSeq(newTx, k) == oldLatest(u, newTxId, k)) && (filter.BeforeSeq != nil ==> *filter.BeforeSeq == old(*filter.BeforeSeq))
 //@   invariant keys:      forall k string :: has(tx.store, k) == old(has(u.txStore.store[oldTxId].store, k))
 //@   invariant nolog:     len(world.logSeq) == 0 && len(world.logCid) == 0
+//@   invariant count:     len(files) + len(deleteFiles) == len(freeNodes)
 // the durable batch: every version is re-sequenced and handed to the repository with the number it will be linked under
 //@ loop (*UseCase).UpdateTx>(*UseCase).UpdateTx$4#1
 //@   invariant pool:      tx != nil && !tx.tinPool
+//@   invariant count:     len(files) + len(deleteFiles) == len(freeNodes)
 //@   invariant idx:       -1 <= rangeindex && rangeindex + 1 <= len(files)
 //@   decreases len(files) - rangeindex
 //@   invariant inv:       ucInv(u)
@@ -384,6 +390,7 @@ package core
 //@   invariant incr:      forall a, b int :: 0 <= a && a < b && b <= rangeindex ==> files[a].Seq < files[b].Seq
 //@ loop (*UseCase).UpdateTx#3
 //@   invariant pool:      tx != nil && !tx.tinPool
+//@   invariant count:     len(files) + len(deleteFiles) == len(freeNodes)
 //@   invariant idx:       -1 <= rangeindex && rangeindex + 1 <= len(files)
 //@   decreases len(files) - rangeindex
 //@   invariant inv:       ucInv(u) && newTx != nil && has(u.txStore.store, newTxId) && u.txStore.store[newTxId] == newTx && !has(u.txStore.store, oldTxId)
@@ -397,6 +404,7 @@ package core
 // the deferred cleanup: every popped node's partner is unlinked from the all-store and both are released
 //@ loop (*UseCase).UpdateTx>(*UseCase).UpdateTx$2#1
 //@   invariant pool:      tx != nil && !tx.tinPool
+//@   invariant count:     err != nil ==> len(files) + len(deleteFiles) == len(freeNodes)
 //@   invariant idx:       -1 <= rangeindex && rangeindex + 1 <= len(freeNodes)
 //@   decreases len(freeNodes) - rangeindex
 //@   invariant inv:       ucInv(u) && !has(u.txStore.store, oldTxId)
